@@ -61,6 +61,22 @@ func InitProcess(scratch string) {
 			fatalMu.Unlock()
 			runtime.Goexit()
 		})
+		// memory guard: the sandbox has no memory limit. A case whose wallet code allocates without
+		// bound (a request that derives 2^32 addresses) must not take the machine down: the child
+		// process ends itself, the parent attributes the death to the running case.
+		go func() {
+			var ms runtime.MemStats
+			for {
+				time.Sleep(500 * time.Millisecond)
+				runtime.ReadMemStats(&ms)
+				if ms.Sys > 10<<30 {
+					buf := make([]byte, 1<<20)
+					n := runtime.Stack(buf, true)
+					fmt.Fprintf(os.Stderr, "MEMORY GUARD: the process holds %d MiB (limit 10240): a wallet goroutine allocates without bound\n%s\n", ms.Sys>>20, buf[:n])
+					os.Exit(4)
+				}
+			}
+		}()
 	})
 }
 
